@@ -171,8 +171,48 @@ func locLen(c *an.Ctx) {
 		// controlling condition of an error return: either len(Location) > 0xFFFF or an error of a bytes.Buffer write
 		cond, _, _ := controllingCondition(p, fi, b)
 		okc := strings.Contains(cond, "#65535") || strings.Contains(cond, "bytes.Buffer") || strings.Contains(cond, "encoding/binary.Write")
+		if !okc {
+			// the error of a helper (or closure) of the encoder that itself fails only when a buffer write fails
+			for _, h := range append(append([]*ssa.Function{}, enc.AnonFuncs...), p.FuncsIn("client")...) {
+				if h != enc && strings.Contains(cond, "call:"+h.String()+"#") && bufferErrorsOnly(p, h) {
+					okc = true
+				}
+			}
+		}
 		c.Check(okc, "LOCLEN", enc, ret.Pos(), an.KeyOf(enc, "encoder-error:"+an.StripVolatile(short(cond))), "the encoder fails only for a location longer than 65535 bytes or when a write to its in-memory buffer fails (bytes.Buffer writes and binary.Write of fixed-size values never fail)", "condition "+short(cond))
 	}
+}
+
+// bufferErrorsOnly: the function's last result is an error that is nil or the error of a bytes.Buffer write / binary.Write.
+func bufferErrorsOnly(p *an.Program, fn *ssa.Function) bool {
+	res := fn.Signature.Results()
+	if res.Len() == 0 || res.At(res.Len()-1).Type().String() != "error" || len(fn.Blocks) == 0 {
+		return false
+	}
+	fi := p.Info(fn)
+	n := 0
+	for _, b := range fn.Blocks {
+		if len(b.Instrs) == 0 || b == fn.Recover {
+			continue
+		}
+		ret, ok := b.Instrs[len(b.Instrs)-1].(*ssa.Return)
+		if !ok {
+			continue
+		}
+		n++
+		t := fi.Term(ret.Results[len(ret.Results)-1])
+		if isConstTerm(t, "nil") {
+			continue
+		}
+		if t.K == an.KExt {
+			t = t.A[0]
+		}
+		if (t.K == an.KCall || t.K == an.KPure) && (strings.HasPrefix(t.Callee(), "(*bytes.Buffer).") || t.Callee() == "encoding/binary.Write") {
+			continue
+		}
+		return false
+	}
+	return n > 0
 }
 
 // clientLiveness: the reporting loop exits only when the thread group stopped;
